@@ -175,7 +175,7 @@ func envAccepts(cnames []string, cvs map[string]*ref.V, rnames []string, rvs map
 func runC07(c *run.Ctx) {
 	sameGoType(c)
 	user := ref.UserFuns()
-	n := c.Pick(1200, 25000)
+	n := c.Pick(1200, 150000)
 	for i := 0; i < n; i++ {
 		if !c.Mine(i) {
 			continue
@@ -361,7 +361,7 @@ func runC07(c *run.Ctx) {
 		})
 	}
 	// compile-time type environments that share one composite type node
-	for i := 0; i < c.Pick(300, 5000); i++ {
+	for i := 0; i < c.Pick(300, 20000); i++ {
 		if !c.Mine(i) {
 			continue
 		}
@@ -427,7 +427,7 @@ func sameGoType(c *run.Ctx) {
 		{c07Iface{V: []int{1}, P: &one, K: 5}, "list/present", "[1]"},
 		{c07Iface{V: true, P: &one, K: 6}, "bool/present", "true"},
 	}
-	for i := 0; i < c.Pick(200, 3000); i++ {
+	for i := 0; i < c.Pick(200, 20000); i++ {
 		if !c.Mine(i) {
 			continue
 		}
